@@ -31,8 +31,8 @@ CORE = {
  "C07": ("Lean theorems: an unregistered Generic rejects every event (also those already collected), a timer without registration or with its current arming still in the wheel does not fire, DEL removes the fd from table and ready list and nothing else, and does not consume the eventfd counter (readiness survives); over the whole loop model (Verif.Inv.Ctl): a disable/update issued outside event processing (top level, idle callbacks) acts at once and leaves nothing deferred (top_level_requests_are_immediate), and nothing deferred survives the event it was requested in (so it cannot reach another source).", "§6 C07"),
  "C08": ("Lean theorems about the dispatcher cell: disable/update aimed at the running source return 'deferred' with the state untouched (no borrow, no panic); register (enable) of the running source is the one panicking call = the documented exclusion.", "§6 C08"),
  "C09": ("Lean theorems: the | and |= tables for all 16 pairs about the definitions regenerated from src/sources/mod.rs on every run (plus commutativity, idempotence, associativity), the resolution of returned action vs deferred request (explicit non-Continue wins), and — over the WHOLE loop model, by a Hoare logic for its exception-state monad (Verif.Inv.Ctl) — pending_clear_after_every_event (for every event, loop state and callback program, incl. self-disable/update, removal, slot reuse and errors, one iteration of dispatch_events ends with pending_action = Continue and no dispatcher borrowed or held) and pending_clear_after_every_history (the same after every sequence of operations, scripts and dispatches): a post action is never carried over to a later event.", "§6 C09"),
- "C13": ("Lean theorems about dispatch_idles: the queue is taken (emptied) before the first callback, so idles inserted by idles go to the next dispatch; the snapshot is walked in order; a cancelled entry is a no-op; dropping the handle does not cancel.", "§6 C13"),
- "C14": ("Lean theorems about the additional-lifecycle set: registration idempotent and duplicate-free (finding F1's fix), unregistration removes exactly the token, a duplicate-free list is walked once per token, before_handle_events is given own-source events only.", "§6 C14"),
+ "C13": ("Lean theorems about dispatch_idles: the queue is taken (emptied) before the first callback, so idles inserted by idles go to the next dispatch; the snapshot is walked in order; a cancelled entry is a no-op; dropping the handle does not cancel; and over the WHOLE loop model (Verif.Inv.IdleQ): after every history the queued idles are pairwise distinct instances numbered below the instance counter (idle_queue_fresh) — nothing is queued twice, nothing that ran comes back.", "§6 C13"),
+ "C14": ("Lean theorems about the additional-lifecycle set: registration idempotent and duplicate-free (finding F1's fix), unregistration removes exactly the token, a duplicate-free list is walked once per token, before_handle_events is given own-source events only; and over the WHOLE loop model (Verif.Inv.Life): after every history of operations, callback programs, failures and dispatches the lifecycle set is duplicate-free (lifecycle_set_duplicate_free), hence each listed source's hooks are called exactly once per walk (hooks_once_per_listed_source).", "§6 C14"),
  "C15": ("Lean theorems: a slot handed out and vacated again leaks nothing (occupied count and every other slot's lookup unchanged), the batch loop processes every event and keeps the first error.", "§6 C15"),
  "C16": ("Lean theorems about the poller model: ADD adds exactly one entry and fails on a present fd, MOD/DEL fail on an absent fd, DEL removes entry and ready-list node only, re-insertion after delete succeeds, dropping a source removes every fd it still had registered. The model's table is compared with the kernel's own (/proc/self/fdinfo) after every operation.", "§6 C16"),
 }
